@@ -175,6 +175,8 @@ impl Script {
 
 /// Scripted `std::io::Write`: every `write` and `flush` call is a choice point.
 pub struct ScriptWriter {
+    /// every flush answers Interrupted (it never completes)
+    pub flush_always_interrupted: bool,
     pub accepted: Vec<u8>,
     pub script: Script,
     pub point: usize,
@@ -184,7 +186,7 @@ pub struct ScriptWriter {
 }
 
 impl ScriptWriter {
-    pub fn new(script: Script) -> Self { ScriptWriter { accepted: vec![], script, point: 0, log: vec![], hard_fail: false } }
+    pub fn new(script: Script) -> Self { ScriptWriter { flush_always_interrupted: false, accepted: vec![], script, point: 0, log: vec![], hard_fail: false } }
 }
 
 impl std::io::Write for ScriptWriter {
@@ -210,6 +212,12 @@ impl std::io::Write for ScriptWriter {
         let p = self.point;
         self.point += 1;
         self.log.push((p, true, 0));
+        if self.flush_always_interrupted {
+            self.hard_fail = true;
+            // give up after many attempts so that a subject retrying forever does not hang the checker
+            if self.log.iter().filter(|x| x.1).count() > 10_000 { return Err(std::io::Error::new(std::io::ErrorKind::Other, "gave up")); }
+            return Err(std::io::Error::new(std::io::ErrorKind::Interrupted, "scripted EINTR on flush"));
+        }
         match self.script.get(p) {
             None => Ok(()),
             Some(_) => { self.hard_fail = true; Err(std::io::Error::new(std::io::ErrorKind::Other, "scripted flush failure")) }
